@@ -4500,6 +4500,7 @@ class NetCDFRead(IORead):
                             coord_ncvar + ":formula_terms": formula_terms
                         },
                         dimensions=g["variable_dimensions"][ncvar],
+                        component=False,
                     )
                     coord_formula_terms[term] = None
 
@@ -5191,6 +5192,7 @@ class NetCDFRead(IORead):
         dimensions=None,
         variable=None,
         conformance=None,
+        component=True,
     ):
         """Stores and logs a message about an issue with a field.
 
@@ -5227,6 +5229,15 @@ class NetCDFRead(IORead):
 
             variable: `str`, optional
 
+            component: `bool`, optional
+                If False then the problem is one of the relation
+                between the variable and this parent only (such as
+                the variable spanning a dimension that the parent
+                does not span). It is then not recorded in the report
+                of the variable as a component, which is included in
+                every other parent that gets a copy of a construct
+                created from the variable.
+
         """
         g = self.read_vars
 
@@ -5259,8 +5270,9 @@ class NetCDFRead(IORead):
             ncvar, []
         ).append(d)
 
-        e = g["component_report"].setdefault(variable, {})
-        e.setdefault(ncvar, []).append(d)
+        if component:
+            e = g["component_report"].setdefault(variable, {})
+            e.setdefault(ncvar, []).append(d)
 
         if dimensions is None:  # pragma: no cover
             dimensions = ""  # pragma: no cover
@@ -8112,6 +8124,7 @@ class NetCDFRead(IORead):
                         field_ncvar,
                         ncvar,
                         message=incorrect_dimensions,
+                        component=False,
                         attribute=attribute,
                         dimensions=g["variable_dimensions"][ncvar],
                         conformance="7.2.requirement.4",
@@ -8247,6 +8260,7 @@ class NetCDFRead(IORead):
                     field_ncvar,
                     ncvar,
                     message=incorrect_dimensions,
+                    component=False,
                     attribute=attribute,
                     dimensions=g["variable_dimensions"][ncvar],
                 )
@@ -8313,6 +8327,7 @@ class NetCDFRead(IORead):
                 parent_ncvar,
                 coord_ncvar,
                 message=incorrect_dimensions,
+                component=False,
                 attribute=attribute,
                 dimensions=g["variable_dimensions"][coord_ncvar],
                 conformance="5.requirement.6",
@@ -8373,6 +8388,7 @@ class NetCDFRead(IORead):
                 parent_ncvar,
                 tie_point_ncvar,
                 message=incorrect_dimensions,
+                component=False,
                 attribute=attribute,
                 dimensions=g["variable_dimensions"][tie_point_ncvar],
                 conformance="8.3.requirement.5",
